@@ -20,9 +20,10 @@
      sclose.call p=s m=mode / sclose.ret   inlet closed | context cancelled; goroutine gone
      recv p=s m=w q=seq ks=keys     the consumer of s read a frame of writer w
      dbclose.call / dbclose.ret     DB.Close
-     quiesce                        ("complete" configuration only) the harness observed,
+     quiesce                        ("complete" and "mixed" configurations) the harness observed,
                                     through a fence frame that went through the inlet after
-                                    every returned write, that the relay is empty
+                                    every returned write and was read by every always-ready
+                                    consumer, that nothing older is on its way to them
    Acceptance: the cursor reaches the end of the trace (high-water mark in TLC register 1,
    -workers 1). Every invariant of Relay is evaluated in every state of every matching
    behaviour; an unexplainable event or a broken invariant is a rejection.                *)
@@ -54,7 +55,7 @@ TReset ==
   /\ gates' = [w \in Writers |-> IF w \in LateOpen THEN {} ELSE WKeys[w]]
   /\ wdone' = [w \in Writers |-> {}] /\ wyes' = [w \in Writers |-> {}]
   /\ wnext' = [w \in Writers |-> 1] /\ wq' = [w \in Writers |-> <<>>]
-  /\ inlet' = <<>> /\ dcur' = NoFrame /\ didx' = 1 /\ conns' = <<>> /\ drun' = TRUE
+  /\ inlet' = <<>> /\ dcur' = NoFrame /\ didx' = 1 /\ conns' = <<>> /\ drun' = TRUE /\ dfired' = FALSE
   /\ sst' = [s \in Streamers |-> "Init"] /\ keys' = [s \in Streamers |-> {}]
   /\ held' = [s \in Streamers |-> NoFrame] /\ out' = [s \in Streamers |-> <<>>]
   /\ req' = [s \in Streamers |-> NoReq] /\ closing' = [s \in Streamers |-> "no"]
@@ -104,21 +105,21 @@ TDBCloseRet  == Ev("dbclose.ret") /\ pc["db"] = "dbclose" /\ dbClosed
 PipeEmpty ==
   /\ inlet = <<>> /\ dcur = NoFrame
   /\ \A w \in Writers : wq[w] = <<>>
-  /\ \A s \in Streamers : held[s] = NoFrame /\ out[s] = <<>> /\ cbuf[s] = NoFrame
+  /\ \A s \in Ready : held[s] = NoFrame /\ out[s] = <<>> /\ cbuf[s] = NoFrame
 TQuiesce == Ev("quiesce") /\ PipeEmpty /\ Step /\ UNCHANGED <<vars, pc, cbuf, will>>
 
 \* ---- silent steps
-\* Lossy configuration (no always-ready consumer): whether the delta hands the current frame to
-\* outlet s or times out is decided by the prophecy - it hands it over iff the log shows s's
-\* consumer reading that frame later. This loses no behaviour: a frame that is handed over and
-\* never read only occupies s's goroutine and output stream, which can disable but never enable
-\* anything else, so "timed out" explains at least as much.
-Lossy == Ready = {}
+\* A streamer whose consumer is not always ready ("lossy": all of them; "mixed": the stalled ones):
+\* whether the delta hands the current frame to its outlet or times out is decided by the
+\* prophecy - it hands it over iff the log shows that consumer reading the frame later. This loses
+\* no behaviour: a frame that is handed over and never read only occupies that streamer's goroutine
+\* and output stream, which can disable but never enable anything else, so "timed out" explains at
+\* least as much. (quiesce only looks at the always-ready streamers.)
 Read(s) == [s |-> s, w |-> dcur.w, q |-> dcur.q] \in will
 SysNoRecv ==
   \/ WriterSys
   \/ DeltaTake
-  \/ \E s \in Streamers : \/ DeltaSendTo(s) /\ (Lossy => Read(s))
+  \/ \E s \in Streamers : \/ DeltaSendTo(s) /\ (s \notin Ready => Read(s))
                           \/ DeltaTimeout(s) /\ ~Read(s)
                           \/ DeltaConnect(s)
                           \/ DeltaDisconnect(s) \/ StreamerFilterSend(s) \/ Resubscribe(s)
